@@ -1378,6 +1378,13 @@ func (w *responseWriter) close() {
 }
 
 func (w *responseWriter) writeEnd(end *responseEnd, wasInHeaders bool) {
+	if !wasInHeaders && w.respMeta != nil {
+		// Trailers the handler has set so far were either extracted into
+		// this end already, or belong to an outcome this end replaces (an
+		// error found while the handler was still writing): they must not
+		// reach the client next to it, e.g. as a second Grpc-Status.
+		_ = httpExtractTrailers(w.delegate.Header(), w.respMeta.pendingTrailerKeys)
+	}
 	trailers := w.op.client.protocol.encodeEnd(w.op, end, w.delegate, wasInHeaders)
 	httpMergeTrailers(w.Header(), trailers)
 	w.endWritten = true
